@@ -56,6 +56,14 @@ CHECKS.update({
   "DESIGN.md 4 C03"),
 })
 
+CHECKS.update({
+ "C04": ("model_checking", "approvex/nsx",
+  "explicit-state exploration: all pairs of NSX states over rule/group/service alphabets + corpus product + chain; real planner as transition; independent NSX manager model executes PUT/PATCH/POST/DELETE; oracle = rule multisets with groups as address sets and services by definition, no left-overs, silent second compare",
+  "All pairs of rule subsets, of group address sets with naming variants, of service variants and policy structures, the nsx corpus product and a chain of approves; every REST call is executed on the model. Exhaustive inside the alphabets.",
+  "Trusts the NSX model, validated on the 40 executable DEVICE/NETSPOC/OUTPUT triples of nsx.t; only documented rule attributes are compared.",
+  "DESIGN.md 4 C04"),
+})
+
 NOT_YET = "check not built yet in this round (design in DESIGN.md section 4); no technique switch intended"
 
 def main():
